@@ -37,7 +37,8 @@ REQUIRED_MONITORS = ['segment', 'all-colons', 'no-colons:cautious',
                      'no-colons:required', 'keyword-channel', 'sec_within',
                      'hook:segment',
                      'hook:rebuild_sec_within', 'hook:findall_matching_sec',
-                     'variant:blank-before-colon', 'variant:no-connector']
+                     'variant:blank-before-colon', 'variant:no-connector',
+                     'variant:context-section']
 
 LEAD = ['That part of the NE/4', 'The north 100 feet', 'All that portion',
         'A tract of land', 'That part of Lot 1', 'NE/4', 'The W/2 and Lot 3',
@@ -282,11 +283,52 @@ def gen_modes(rng):
     return case
 
 
+def check_context_section(case, ctx, rec, pytrs):
+    """A section that is only mentioned inside a description block ('... and
+    in Sec 15: W/2') is not a section of its own by default; with every
+    section followed by a colon the colon modes change nothing about that."""
+    txt = case['text']
+    with ctx.guard(case):
+        a = pytrs.PLSSDesc(txt)
+        if len(a.tracts) != case['n_expected'] or a.e_flags:
+            ctx.discard('context-section-not-read-as-expected')
+            return
+        ctx.case([txt, 'context-section'], True, shape='modes|context-section',
+                 sample={'text': short(txt, 160)})
+        ctx.hit('variant:context-section')
+        for cfg in ('sec_colon_required', 'sec_colon_cautious'):
+            ctx.hit('all-colons')
+            c = pytrs.PLSSDesc(txt, config=cfg)
+            if tr(c) != tr(a):
+                ctx.violation(
+                    'colon-mode-changes-colon-terminated-description', case,
+                    f"{cfg}: tracts {tr(c)} vs default {tr(a)}",
+                    dedup=f"{cfg}|context-section")
+
+
+def gen_context_section(rng):
+    tw = G.render_twprge((rng.randint(1, 160), rng.choice('ns'),
+                          rng.randint(3, 99), rng.choice('ew')), 'compact')
+    a, b = rng.sample(range(1, 37), 2)
+    word = rng.choice(['in', 'of', 'within', 'said'])
+    blk = rng.choice(['NE/4', 'Lots 1 - 3', 'W/2, that part lying north'])
+    blk2 = rng.choice(['W/2', 'Lot 4', 'ALL'])
+    lay = rng.choice(['TRS_desc', 'S_desc_TR'])
+    body = (f"{rng.choice(['Sec', 'Section'])} {a}: {blk}, and {word} "
+            f"{rng.choice(['Sec', 'Section'])} {b}: {blk2}")
+    text = f"{tw} {body}" if lay == 'TRS_desc' else f"{body}, {tw}"
+    return {'context_section': True, 'text': text, 'layout': lay,
+            'n_expected': 1}
+
+
 def run_shard(shard, ctx):
     pytrs, rec = _setup(ctx)
     rng = ctx.rng(shard['family'], shard['i'])
     for _ in range(shard['n']):
         if shard['family'] == 'modes':
+            if rng.random() < 0.1:
+                check_context_section(gen_context_section(rng), ctx, rec, pytrs)
+                continue
             check_modes(gen_modes(rng), ctx, rec, pytrs)
         else:
             check_sec_within(gen_sec_within(rng), ctx, rec, pytrs)
@@ -294,7 +336,9 @@ def run_shard(shard, ctx):
 
 def replay(case, ctx):
     pytrs, rec = _setup(ctx)
-    if case.get('sec_within'):
+    if case.get('context_section'):
+        check_context_section(case, ctx, rec, pytrs)
+    elif case.get('sec_within'):
         check_sec_within(case, ctx, rec, pytrs)
     else:
         check_modes(case, ctx, rec, pytrs)
